@@ -495,4 +495,15 @@ void run_C09(void) {
     special_classes(N);
     if (N >= 2) wrappers(N, th ? (N <= 4096 ? 400 : 40) : (N <= 4096 ? 24 : 4));
   }
+  // the entry points of this property called a second time on the SAME buffers holding other data (new values, two limbs exchanged,
+  // one word moved between limbs): must equal a fresh call on that data (results or operands remembered by address)
+  {
+    static const char* const RNAMES[] = {"vec_znx_rotate", "vec_znx_automorphism", "vec_znx_big_rotate", "vec_znx_big_automorphism", "znx_rotate_i64", "rnx_rotate_f64", "znx_rotate_inplace_i64", "rnx_rotate_inplace_f64", "znx_automorphism_i64", "rnx_automorphism_f64", "znx_automorphism_inplace_i64", "rnx_automorphism_inplace_f64", "znx_mul_xp_minus_one", "rnx_mul_xp_minus_one", "rnx_mul_xp_minus_one_inplace"};
+    static const uint64_t RN[] = {2, 16, 64, 1024};
+    for (size_t i = 0; i < ARRAY_LEN(RN); i++)
+      for (int cfg = DISP_NATIVE; cfg >= DISP_GENERIC; cfg--) {
+        if (cfg == DISP_GENERIC && (i & 1)) continue;
+        ops_recontent_case("C09 entry points", RNAMES, (int)ARRAY_LEN(RNAMES), RN[i], cfg, G.thorough ? 40 : 6, (unsigned)i, "same_buffers_other_data_calls");
+      }
+  }
 }
